@@ -94,3 +94,16 @@ Proof.
   - cbn -[exp ln Rplus Rmult Rdiv IZR]. rewrite !ln_exp. pose proof (exp_pos 1). pose proof (exp_pos 2). f_equal; [field; lra|f_equal; field; lra].
   - cbn -[exp ln Rplus Rmult Rdiv IZR]. rewrite !ln_exp. pose proof (exp_pos 1). pose proof (exp_pos 2). field. lra.
 Qed.
+
+(* the guards of the operators that exist only in the real family are satisfiable: a batched
+   {3} x 2 operand reduced / picked along axis 0, B-vs-1 Divide, Max, the softmax family *)
+Lemma rx_guards :
+  d_ok (describeR (RMax (mkT [3%nat] 2) (mkT [1%nat] 2) 0)) = true /\
+  d_ok (describeR (RMin (mkT [2%nat; 3%nat] 1) (mkT [2%nat; 1%nat] 1) 1)) = true /\
+  d_ok (describeR (RLogSumExp (mkT [3%nat] 2) (mkT [1%nat] 2) 0)) = true /\
+  d_ok (describeR (RSCE (mkT [3%nat] 2) (mkT [1%nat] 2) 0)) = true /\
+  d_ok (describeR (RSparseSCE (mkT [3%nat] 2) (mkT [1%nat] 2) [2%nat; 0%nat] 0)) = true /\
+  d_ok (describeR (RSparseSCE (mkT [3%nat] 2) (mkT [1%nat] 2) [1%nat] 0)) = true /\
+  d_ok (describeR (RBin BDivide (mkT [3%nat] 2) (mkT [3%nat] 1))) = true /\
+  d_ok (describeR (RBin BPow (mkT [3%nat] 1) (mkT [3%nat] 4))) = true.
+Proof. repeat split; vm_compute; reflexivity. Qed.
